@@ -44,3 +44,24 @@ Print Assumptions C18_enum_exact_roundtrip.
 Theorem C18_uncovered_refuted : flag_load (flag_dump true [1; 6] 2) <> 2.
 Proof. exact uncovered_refuted. Qed.
 Print Assumptions C18_uncovered_refuted.
+
+(* ---- enum_by_name (name_style / map): Model/Enum.v's name_mapping_from / name_dump / name_load, tied to the library by
+   correspondence on random enums, maps and styles.  With pairwise different strings the representation is a bijection on
+   the members and the loader accepts exactly the strings of the table; a map that gives two members one string is not
+   (the earlier member loads back as the later one: refuted, a configuration the library does not reject) ---- *)
+From AV Require Proofs.EnumNameProofs.
+Theorem C18_by_name_is_bijection : forall style by_member by_name names mapping,
+  Enum.name_mapping_from style by_member by_name 0 names = Some mapping -> NoDup (map snd mapping) ->
+  forall m s, In (m, s) mapping -> Enum.name_dump mapping m = Some s /\ Enum.name_load mapping s = Some m.
+Proof. exact EnumNameProofs.generated_by_name_is_bijection. Qed.
+Print Assumptions C18_by_name_is_bijection.
+
+Theorem C18_by_name_accepts_exactly_the_names : forall mapping s,
+  (exists m, Enum.name_load mapping s = Some m) <-> In s (map snd mapping).
+Proof. exact EnumNameProofs.by_name_accepts_iff. Qed.
+Print Assumptions C18_by_name_accepts_exactly_the_names.
+
+Theorem C18_by_name_collision_refuted : exists mapping m s,
+  In (m, s) mapping /\ Enum.name_dump mapping m = Some s /\ Enum.name_load mapping s <> Some m.
+Proof. exact EnumNameProofs.by_name_collision_refuted. Qed.
+Print Assumptions C18_by_name_collision_refuted.
